@@ -2,9 +2,10 @@
    finished non-forever jobs, and what the exit path (why) says about them. *)
 From AJ Require Import Common.Util Run.RModel Run.RFacts Run.RFacts2 Run.RInv Run.RInv2.
 
-Definition ph_counts (p : phase) : Prop := p = PMain \/ p = PTidy WSuccess \/ p = PShut WSuccess.
 Definition ph_nocrit (p : phase) : Prop :=
   p = PMain \/ p = PTidy WSuccess \/ p = PShut WSuccess \/ p = PTidy WTimeout \/ p = PShut WTimeout.
+Definition ph_counts (p : phase) : Prop := ph_nocrit p.
+Definition cover_ph (p : phase) : Prop := p = PMain \/ (exists w, p = PTidy w) \/ (exists w, p = PShut w).
 Definition ph_succ (p : phase) : Prop := p = PTidy WSuccess \/ p = PShut WSuccess.
 Definition ph_crit (p : phase) : Prop := p = PTidy WCritical \/ p = PShut WCritical.
 
@@ -18,10 +19,11 @@ Record Inv5 (c : cfg) (s : state) : Prop := {
   b_nocrit : forall n, ph_nocrit (ph (Rn s n)) -> forall x, In x (seen (Rn s n)) -> crit_exc c s x = false;
   b_succ : forall n, ph_succ (ph (Rn s n)) -> ndone (Rn s n) = nfinite c n;
   b_crit : forall n, ph_crit (ph (Rn s n)) -> exists x, In x (seen (Rn s n)) /\ crit_exc c s x = true;
-  b_cover : forall n x, ph (Rn s n) = PMain -> In x (members c n) -> st (Jb s x) <> Idle ->
+  b_cover : forall n x, cover_ph (ph (Rn s n)) -> In x (members c n) -> st (Jb s x) <> Idle ->
                         In x (pend (Rn s n)) \/ In x (seen (Rn s n));
   b_eager : forall n x, ph (Rn s n) = PMain -> In x (members c n) -> st (Jb s x) = Idle ->
-                        exists r, In r (reqs c x) /\ ~ In r (seen (Rn s n))
+                        exists r, In r (reqs c x) /\ ~ In r (seen (Rn s n));
+  b_open : forall n, ph (Rn s n) = PMain -> nfinite c n <> 0 -> ndone (Rn s n) <> nfinite c n
 }.
 
 Lemma Inv5_init c : Inv5 c init.
@@ -32,12 +34,13 @@ Proof.
   - intros n. constructor.
   - intros n x [].
   - intros n x [].
-  - intros n [H|[H|H]]; discriminate.
+  - intros n [H|[H|[H|[H|H]]]]; discriminate.
   - intros n _ x [].
   - intros n [H|H]; discriminate.
   - intros n [H|H]; discriminate.
+  - intros n x [H|[[w H]|[w H]]]; discriminate.
   - intros n x H. discriminate.
-  - intros n x H. discriminate.
+  - intros n H. discriminate.
 Qed.
 
 (* ---------- stability facts from the J-effect ---------- *)
@@ -109,22 +112,23 @@ Definition inv5_at (c : cfg) (s : state) (n : nat) : Prop :=
   (ph_nocrit (ph (Rn s n)) -> forall x, In x (seen (Rn s n)) -> crit_exc c s x = false) /\
   (ph_succ (ph (Rn s n)) -> ndone (Rn s n) = nfinite c n) /\
   (ph_crit (ph (Rn s n)) -> exists x, In x (seen (Rn s n)) /\ crit_exc c s x = true) /\
-  (forall x, ph (Rn s n) = PMain -> In x (members c n) -> st (Jb s x) <> Idle ->
+  (forall x, cover_ph (ph (Rn s n)) -> In x (members c n) -> st (Jb s x) <> Idle ->
              In x (pend (Rn s n)) \/ In x (seen (Rn s n))) /\
   (forall x, ph (Rn s n) = PMain -> In x (members c n) -> st (Jb s x) = Idle ->
-             exists r, In r (reqs c x) /\ ~ In r (seen (Rn s n))).
+             exists r, In r (reqs c x) /\ ~ In r (seen (Rn s n))) /\
+  (ph (Rn s n) = PMain -> nfinite c n <> 0 -> ndone (Rn s n) <> nfinite c n).
 
 Lemma Inv5_at c s n : Inv5 c s -> inv5_at c s n.
 Proof.
-  intros [B1 B2 B3 B4 B5 B6 B7 B8 B9 B10 B11]. unfold inv5_at.
+  intros [B1 B2 B3 B4 B5 B6 B7 B8 B9 B10 B11 B12]. unfold inv5_at.
   split; [apply B1|]. split; [apply B2|]. split; [apply B3|]. split; [apply B4|].
   split; [apply B5|]. split; [apply B6|]. split; [apply B7|]. split; [apply B8|].
-  split; [apply B9|]. split; [intros x; apply B10|intros x; apply B11].
+  split; [apply B9|]. split; [intros x; apply B10|]. split; [intros x; apply B11|apply B12].
 Qed.
 
 Lemma Inv5_of_at c s : (forall n, inv5_at c s n) -> Inv5 c s.
 Proof.
-  intros H. split; intros n; destruct (H n) as (A1 & A2 & A3 & A4 & A5 & A6 & A7 & A8 & A9 & A10 & A11); auto.
+  intros H. split; intros n; destruct (H n) as (A1 & A2 & A3 & A4 & A5 & A6 & A7 & A8 & A9 & A10 & A11 & A12); auto.
 Qed.
 
 Section Step.
@@ -147,40 +151,36 @@ Section Step.
   Lemma inv5_keep n f :
     seen (Rn s' n) = seen (Rn s n) -> ndone (Rn s' n) = ndone (Rn s n) ->
     pend (Rn s' n) = filter f (pend (Rn s n)) ->
-    (ph_counts (ph (Rn s' n)) -> ph_counts (ph (Rn s n))) ->
     (ph_nocrit (ph (Rn s' n)) -> ph_nocrit (ph (Rn s n))) ->
     (ph_succ (ph (Rn s' n)) -> ph_succ (ph (Rn s n))) ->
     (ph_crit (ph (Rn s' n)) -> ph_crit (ph (Rn s n))) ->
-    (ph (Rn s' n) = PMain -> ph (Rn s n) = PMain /\ pend (Rn s' n) = pend (Rn s n)) ->
+    (ph (Rn s' n) = PMain -> ph (Rn s n) = PMain) ->
+    (cover_ph (ph (Rn s' n)) -> cover_ph (ph (Rn s n)) /\ pend (Rn s' n) = pend (Rn s n)) ->
     inv5_at c s' n.
   Proof.
-    intros Es En Ep C1 C2 C3 C4 C5. unfold inv5_at. rewrite Es, En, Ep.
-    destruct (Inv5_at c s n I5) as (A1 & A2 & A3 & A4 & A5 & A6 & A7 & A8 & A9 & A10 & A11).
+    intros Es En Ep C2 C3 C4 C5 C6. unfold inv5_at. rewrite Es, En, Ep.
+    destruct (Inv5_at c s n I5) as (A1 & A2 & A3 & A4 & A5 & A6 & A7 & A8 & A9 & A10 & A11 & A12).
     split; [exact A1|]. split.
     { intros x Hx. destruct (seen_stay n x Hx) as (B1 & B2 & B3). auto. }
     split; [apply NoDup_filter; exact A3|]. split.
     { intros x Hx. apply filter_In in Hx. apply A4. tauto. }
     split.
     { intros x Hx. apply filter_In in Hx. apply (not_idle_stable lvl c s e s' x W I1 Hs). apply A5. tauto. }
-    split; [intros H; apply A6; auto|]. split.
+    split; [intros H; apply A6; apply C2; exact H|]. split.
     { intros H x Hx. destruct (seen_stay n x Hx) as (B1 & B2 & B3). rewrite B2. apply A7; auto. }
     split; [intros H; apply A8; auto|]. split.
     { intros H. destruct (A9 (C4 H)) as (x & Hx & Hc). exists x. split; [exact Hx|].
       destruct (seen_stay n x Hx) as (B1 & B2 & B3). rewrite B2. exact Hc. }
     split.
-    { intros x Hph Hm Hx. destruct (C5 Hph) as [Hph0 Hpe]. rewrite <- Ep, Hpe.
-      destruct (st (Jb s x)) eqn:Est.
-      - left. assert (Hp : parent c x = n) by (apply In_members in Hm; tauto).
-        rewrite <- Hpe. rewrite <- Hp.
-        apply (newly_live_pending lvl c s e s' x W I1 Hs Est Hx).
-      - apply A10; auto. rewrite Est. discriminate.
-      - apply A10; auto. rewrite Est. discriminate.
-      - apply A10; auto. rewrite Est. discriminate.
-      - apply A10; auto. rewrite Est. discriminate.
-      - apply A10; auto. rewrite Est. discriminate.
-      - apply A10; auto. rewrite Est. discriminate. }
-    { intros x Hph Hm Hx. destruct (C5 Hph) as [Hph0 Hpe].
-      apply A11; auto. apply (idle_back lvl c s e s' x W I1 Hs Hx). }
+    { intros x Hph Hm Hx. destruct (C6 Hph) as [Hph0 Hpe]. rewrite <- Ep, Hpe.
+      destruct (st (Jb s x)) eqn:Est;
+        try (apply A10; auto; rewrite Est; discriminate).
+      left. assert (Hp : parent c x = n) by (apply In_members in Hm; tauto).
+      rewrite <- Hpe. rewrite <- Hp.
+      apply (newly_live_pending lvl c s e s' x W I1 Hs Est Hx). }
+    split.
+    { intros x Hph Hm Hx. apply A11; auto. apply (idle_back lvl c s e s' x W I1 Hs Hx). }
+    { intros Hph Hnf. apply A12; auto. }
   Qed.
 
   (* the run of n begins *)
@@ -205,9 +205,11 @@ Section Step.
       assert (Hp : parent c x = n) by (apply In_members in Hm; tauto). rewrite <- Hp.
       apply (newly_live_pending lvl c s e s' x W I1 Hs); [|exact Hx].
       apply (i_idle c s I1 n x Hm Hidle).
-    - intros x Hph Hm Hx. destruct (reqs c x) as [|r rs] eqn:Er.
-      + exfalso. destruct (B4 x (Bcov Hph x Hm Er)) as [_ H]. rewrite H in Hx. discriminate.
-      + exists r. split; [left; reflexivity|intros []].
+    - split.
+      + intros x Hph Hm Hx. destruct (reqs c x) as [|r rs] eqn:Er.
+        * exfalso. destruct (B4 x (Bcov Hph x Hm Er)) as [_ H]. rewrite H in Hx. discriminate.
+        * exists r. split; [left; reflexivity|intros []].
+      + intros _ Hnf. intro E. apply Hnf. symmetry. exact E.
   Qed.
 
   Lemma existsb_false_forall (f : nat -> bool) l : existsb f l = false -> forall x, In x l -> f x = false.
@@ -222,7 +224,7 @@ Section Step.
     main_upd c s s' n d -> inv5_at c s' n.
   Proof.
     intros Hph Hd Hnd (Us & Urc & U).
-    destruct (Inv5_at c s n I5) as (A1 & A2 & A3 & A4 & A5 & A6 & A7 & A8 & A9 & A10 & A11).
+    destruct (Inv5_at c s n I5) as (A1 & A2 & A3 & A4 & A5 & A6 & A7 & A8 & A9 & A10 & A11 & A12).
     pose proof (seteqb_spec _ _ Hd) as Hdin.
     assert (Hdfacts : forall x, In x d -> In x (pend (Rn s n)) /\ In x (members c n) /\
                                           is_done (st (Jb s x)) = true /\ is_done (st (Jb s' x)) = true /\
@@ -244,11 +246,39 @@ Section Step.
       - destruct (Hdfacts x Hx) as (D1 & D2 & D3 & D4 & D5). auto. }
     assert (Hnd' : NoDup (seen (Rn s n) ++ d)).
     { apply NoDup_app_intro; auto. intros x Hx Hxd. destruct (Hdfacts x Hxd) as (D1 & _). exact (A4 x D1 Hx). }
+    assert (Hcovgen : forall x, In x (members c n) -> st (Jb s' x) <> Idle ->
+               (forall y, In y (diff (pend (Rn s n)) d) -> In y (pend (Rn s' n))) ->
+               In x (pend (Rn s' n)) \/ In x (seen (Rn s n) ++ d)).
+    { intros x Hm Hx Hsubp. destruct (st (Jb s x)) eqn:Est.
+      - left. assert (Hpar : parent c x = n) by (apply In_members in Hm; tauto).
+        rewrite <- Hpar. apply (newly_live_pending lvl c s e s' x W I1 Hs Est Hx).
+      - destruct (A10 x (or_introl Hph) Hm) as [H|H]; [rewrite Est; discriminate| |right; apply in_app_iff; auto].
+        destruct (in_dec Nat.eq_dec x d) as [Hxd|Hxd]; [right; apply in_app_iff; auto|].
+        left. apply Hsubp. apply In_diff. auto.
+      - destruct (A10 x (or_introl Hph) Hm) as [H|H]; [rewrite Est; discriminate| |right; apply in_app_iff; auto].
+        destruct (in_dec Nat.eq_dec x d) as [Hxd|Hxd]; [right; apply in_app_iff; auto|].
+        left. apply Hsubp. apply In_diff. auto.
+      - destruct (A10 x (or_introl Hph) Hm) as [H|H]; [rewrite Est; discriminate| |right; apply in_app_iff; auto].
+        destruct (in_dec Nat.eq_dec x d) as [Hxd|Hxd]; [right; apply in_app_iff; auto|].
+        left. apply Hsubp. apply In_diff. auto.
+      - destruct (A10 x (or_introl Hph) Hm) as [H|H]; [rewrite Est; discriminate| |right; apply in_app_iff; auto].
+        destruct (in_dec Nat.eq_dec x d) as [Hxd|Hxd]; [right; apply in_app_iff; auto|].
+        left. apply Hsubp. apply In_diff. auto.
+      - destruct (A10 x (or_introl Hph) Hm) as [H|H]; [rewrite Est; discriminate| |right; apply in_app_iff; auto].
+        destruct (in_dec Nat.eq_dec x d) as [Hxd|Hxd]; [right; apply in_app_iff; auto|].
+        left. apply Hsubp. apply In_diff. auto.
+      - destruct (A10 x (or_introl Hph) Hm) as [H|H]; [rewrite Est; discriminate| |right; apply in_app_iff; auto].
+        destruct (in_dec Nat.eq_dec x d) as [Hxd|Hxd]; [right; apply in_app_iff; auto|].
+        left. apply Hsubp. apply In_diff. auto. }
     unfold inv5_at. rewrite Us.
     split; [exact Hnd'|]. split; [intros x Hx; destruct (Hseen' x Hx) as (B1 & B2 & B3); auto|].
     destruct U as [(w & Hw & Hp & Hps & Hcz & Hb)|(Hw & Hne & Hnc & Hn & Hnf & new & Hp & Hnn & Hnew & Hcr)].
     - (* exit paths *)
-      rewrite Hp.
+      assert (Hnotmain : ph (Rn s' n) <> PMain) by (destruct Hw as [H|H]; rewrite H; discriminate).
+      assert (Hcov : forall x, cover_ph (ph (Rn s' n)) -> In x (members c n) -> st (Jb s' x) <> Idle ->
+                     In x (pend (Rn s' n)) \/ In x (seen (Rn s n) ++ d)).
+      { intros x _ Hm Hx. apply Hcovgen; auto. intros y Hy. rewrite Hp. exact Hy. }
+      rewrite Hp in *.
       split; [apply NoDup_filter; exact A3|].
       split.
       { intros x Hx Hs'. apply In_diff in Hx. destruct Hx as [Hx1 Hx2].
@@ -256,6 +286,10 @@ Section Step.
       split.
       { intros x Hx. apply In_diff in Hx. apply (not_idle_stable lvl c s e s' x W I1 Hs). apply A5. tauto. }
       assert (Hphw : ph (Rn s' n) = PTidy w \/ ph (Rn s' n) = PShut w) by exact Hw.
+      assert (Htail : (forall x, ph (Rn s' n) = PMain -> In x (members c n) -> st (Jb s' x) = Idle ->
+                          exists r, In r (reqs c x) /\ ~ In r (seen (Rn s n) ++ d)) /\
+                      (ph (Rn s' n) = PMain -> nfinite c n <> 0 -> ndone (Rn s' n) <> nfinite c n)).
+      { split; intros; contradiction. }
       destruct w.
       + (* success *)
         destruct Hb as (Hne & Hnc & Hn & Hnf).
@@ -267,31 +301,31 @@ Section Step.
             apply (existsb_false_forall _ _ Hnc x Hx). }
         split; [intros _; exact Hnf|].
         split; [intros [H|H]; destruct Hphw as [H'|H']; rewrite H' in H; discriminate|].
-        split; [intros x H; destruct Hphw as [H'|H']; rewrite H' in H; discriminate|].
-        intros x H; destruct Hphw as [H'|H']; rewrite H' in H; discriminate.
+        split; [exact Hcov|exact Htail].
       + (* timeout *)
         destruct Hb as (Hde & Hn). subst d.
-        split; [intros [H|[H|H]]; destruct Hphw as [H'|H']; rewrite H' in H; discriminate|].
+        split; [intros _; rewrite Hn, app_nil_r; apply A6; left; exact Hph|].
         split.
         { intros _ x Hx. rewrite app_nil_r in Hx.
           destruct (seen_stay n x Hx) as (B1 & B2 & B3). rewrite B2. apply A7; [left; exact Hph|exact Hx]. }
         split; [intros [H|H]; destruct Hphw as [H'|H']; rewrite H' in H; discriminate|].
         split; [intros [H|H]; destruct Hphw as [H'|H']; rewrite H' in H; discriminate|].
-        split; [intros x H; destruct Hphw as [H'|H']; rewrite H' in H; discriminate|].
-        intros x H; destruct Hphw as [H'|H']; rewrite H' in H; discriminate.
+        split; [exact Hcov|exact Htail].
       + (* critical *)
         destruct Hb as (Hne & Hcx & Hn).
-        split; [intros [H|[H|H]]; destruct Hphw as [H'|H']; rewrite H' in H; discriminate|].
+        split; [intros [H|[H|[H|[H|H]]]]; destruct Hphw as [H'|H']; rewrite H' in H; discriminate|].
         split; [intros [H|[H|[H|[H|H]]]]; destruct Hphw as [H'|H']; rewrite H' in H; discriminate|].
         split; [intros [H|H]; destruct Hphw as [H'|H']; rewrite H' in H; discriminate|].
         split.
         { intros _. apply existsb_exists in Hcx. destruct Hcx as (x & Hx & Hc). exists x.
           split; [apply in_app_iff; right; exact Hx|].
           destruct (Hdfacts x Hx) as (_ & _ & _ & _ & D5). rewrite D5. exact Hc. }
-        split; [intros x H; destruct Hphw as [H'|H']; rewrite H' in H; discriminate|].
-        intros x H; destruct Hphw as [H'|H']; rewrite H' in H; discriminate.
+        split; [exact Hcov|exact Htail].
     - (* the loop goes on *)
-      rewrite Hp.
+      assert (Hcov : forall x, cover_ph (ph (Rn s' n)) -> In x (members c n) -> st (Jb s' x) <> Idle ->
+                     In x (pend (Rn s' n)) \/ In x (seen (Rn s n) ++ d)).
+      { intros x _ Hm Hx. apply Hcovgen; auto. intros y Hy. rewrite Hp. apply in_app_iff. auto. }
+      rewrite Hp in *.
       assert (Hnew_idle : forall x, In x new -> st (Jb s x) = Idle /\ In x (members c n)).
       { intros x Hx. apply Hnew in Hx. destruct Hx as (E1 & E2 & _). auto. }
       split.
@@ -316,28 +350,8 @@ Section Step.
           apply (existsb_false_forall _ _ Hnc x Hx). }
       split; [intros [H|H]; rewrite Hw in H; discriminate|].
       split; [intros [H|H]; rewrite Hw in H; discriminate|].
+      split; [exact Hcov|].
       split.
-      { intros x _ Hm Hx. destruct (st (Jb s x)) eqn:Est.
-        - left. assert (Hpar : parent c x = n) by (apply In_members in Hm; tauto).
-          rewrite <- Hp. rewrite <- Hpar. apply (newly_live_pending lvl c s e s' x W I1 Hs Est Hx).
-        - destruct (A10 x Hph Hm) as [H|H]; [rewrite Est; discriminate| |right; apply in_app_iff; auto].
-          destruct (in_dec Nat.eq_dec x d) as [Hxd|Hxd]; [right; apply in_app_iff; auto|].
-          left. apply in_app_iff. left. apply In_diff. auto.
-        - destruct (A10 x Hph Hm) as [H|H]; [rewrite Est; discriminate| |right; apply in_app_iff; auto].
-          destruct (in_dec Nat.eq_dec x d) as [Hxd|Hxd]; [right; apply in_app_iff; auto|].
-          left. apply in_app_iff. left. apply In_diff. auto.
-        - destruct (A10 x Hph Hm) as [H|H]; [rewrite Est; discriminate| |right; apply in_app_iff; auto].
-          destruct (in_dec Nat.eq_dec x d) as [Hxd|Hxd]; [right; apply in_app_iff; auto|].
-          left. apply in_app_iff. left. apply In_diff. auto.
-        - destruct (A10 x Hph Hm) as [H|H]; [rewrite Est; discriminate| |right; apply in_app_iff; auto].
-          destruct (in_dec Nat.eq_dec x d) as [Hxd|Hxd]; [right; apply in_app_iff; auto|].
-          left. apply in_app_iff. left. apply In_diff. auto.
-        - destruct (A10 x Hph Hm) as [H|H]; [rewrite Est; discriminate| |right; apply in_app_iff; auto].
-          destruct (in_dec Nat.eq_dec x d) as [Hxd|Hxd]; [right; apply in_app_iff; auto|].
-          left. apply in_app_iff. left. apply In_diff. auto.
-        - destruct (A10 x Hph Hm) as [H|H]; [rewrite Est; discriminate| |right; apply in_app_iff; auto].
-          destruct (in_dec Nat.eq_dec x d) as [Hxd|Hxd]; [right; apply in_app_iff; auto|].
-          left. apply in_app_iff. left. apply In_diff. auto. }
       { intros x _ Hm Hx.
         pose proof (idle_back lvl c s e s' x W I1 Hs Hx) as Hi.
         assert (Hnotnew : ~ In x new).
@@ -354,12 +368,29 @@ Section Step.
             - destruct (IH E) as (r0 & H1 & H2). exists r0. split; [right; exact H1|exact H2]. }
           destruct Hex as (r0 & Hr0 & Hnd0). exists r0. split; [exact Hr0|].
           intro Hin. destruct (Hseen' r0 Hin) as (_ & _ & Hdn). congruence. }
+      { intros _ _. exact Hnf. }
+  Qed.
+
+  (* backward reading of the phase order for actor steps that are not main wakes *)
+  Lemma kept_phase n : kept s s' n -> ph (Rn s n) <> PIdle ->
+    ph (Rn s' n) <> PMain /\
+    (forall w, ph (Rn s' n) = PTidy w -> ph (Rn s n) = PTidy w) /\
+    (forall w, ph (Rn s' n) = PShut w -> ph (Rn s n) = PTidy w \/ ph (Rn s n) = PShut w).
+  Proof.
+    intros (K1 & K2 & K3 & K4 & K5 & K6 & K7 & K8 & K9) Hni.
+    destruct (ph (Rn s n)) as [| |w0|w0| |] eqn:E; try contradiction.
+    - destruct (K6 eq_refl) as [K|K]; rewrite K; repeat split; intros; discriminate.
+    - destruct (K5 w0 eq_refl) as [K|[K|K]]; rewrite K; repeat split; try discriminate;
+        intros w Hw; inversion Hw; subst; auto.
+    - destruct (K4 w0 eq_refl) as [K|K]; rewrite K; repeat split; try discriminate;
+        intros w Hw; inversion Hw; subst; auto.
+    - destruct (K7 eq_refl) as [K|K]; rewrite K; repeat split; intros; discriminate.
   Qed.
 
   Theorem inv5_at_step n : inv5_at c s' n.
   Proof.
     destruct (R_effect lvl c s e s' W (i_pend c s I1) Hs n)
-      as [Hq _|_ B1 _ B3 B4 Bnd Bs Bn _ _ _ _ Bcov|_ A1 A2 A3 _ A4 A5 A6 [K|(Hph & d & Hd & Hnd & U)]].
+      as [Hq _|_ B1 _ B3 B4 Bnd Bs Bn _ _ _ _ Bcov _|_ A1 A2 A3 _ A4 A5 A6 [K|(Hph & d & Hd & Hnd & U)]].
     - destruct Hq as (Q1 & Q2 & Q3 & Q4 & _).
       apply (inv5_keep n (fun _ => true)); auto.
       + rewrite Q2. apply filter_true_id.
@@ -369,43 +400,29 @@ Section Step.
       + rewrite Q1; auto.
       + rewrite Q1. auto.
     - apply inv5_begin; auto.
-    - destruct K as (K1 & K2 & (f & K3) & K4 & K5 & K6 & K7 & K8 & K9).
-      assert (Hcls : forall P : phase -> Prop,
-                (forall w, P (PShut w) -> P (PShut w)) -> True) by auto.
+    - destruct (kept_phase n K A2) as (P1 & P2 & P3).
+      destruct K as (K1 & K2 & (f & K3) & K4 & K5 & K6 & K7 & K8 & K9 & K10 & K11).
       apply (inv5_keep n f); auto.
-      + intros H. destruct (ph (Rn s n)) as [| |w|w| |] eqn:E; try contradiction.
-        * destruct (K6 eq_refl) as [K|K]; rewrite K in H; destruct H as [H|[H|H]]; discriminate.
-        * destruct (K5 w eq_refl) as [K|[K|K]]; rewrite K in H; destruct H as [H|[H|H]]; inversion H; subst;
-            unfold ph_counts; auto.
-        * destruct (K4 w eq_refl) as [K|K]; rewrite K in H; destruct H as [H|[H|H]]; inversion H; subst;
-            unfold ph_counts; auto.
-        * destruct (K7 eq_refl) as [K|K]; rewrite K in H; destruct H as [H|[H|H]]; discriminate.
-      + intros H. destruct (ph (Rn s n)) as [| |w|w| |] eqn:E; try contradiction.
-        * destruct (K6 eq_refl) as [K|K]; rewrite K in H; destruct H as [H|[H|[H|[H|H]]]]; discriminate.
-        * destruct (K5 w eq_refl) as [K|[K|K]]; rewrite K in H; destruct H as [H|[H|[H|[H|H]]]]; inversion H; subst;
-            unfold ph_nocrit; auto 6.
-        * destruct (K4 w eq_refl) as [K|K]; rewrite K in H; destruct H as [H|[H|[H|[H|H]]]]; inversion H; subst;
-            unfold ph_nocrit; auto 6.
-        * destruct (K7 eq_refl) as [K|K]; rewrite K in H; destruct H as [H|[H|[H|[H|H]]]]; discriminate.
-      + intros H. destruct (ph (Rn s n)) as [| |w|w| |] eqn:E; try contradiction.
-        * destruct (K6 eq_refl) as [K|K]; rewrite K in H; destruct H as [H|H]; discriminate.
-        * destruct (K5 w eq_refl) as [K|[K|K]]; rewrite K in H; destruct H as [H|H]; inversion H; subst;
-            unfold ph_succ; auto.
-        * destruct (K4 w eq_refl) as [K|K]; rewrite K in H; destruct H as [H|H]; inversion H; subst;
-            unfold ph_succ; auto.
-        * destruct (K7 eq_refl) as [K|K]; rewrite K in H; destruct H as [H|H]; discriminate.
-      + intros H. destruct (ph (Rn s n)) as [| |w|w| |] eqn:E; try contradiction.
-        * destruct (K6 eq_refl) as [K|K]; rewrite K in H; destruct H as [H|H]; discriminate.
-        * destruct (K5 w eq_refl) as [K|[K|K]]; rewrite K in H; destruct H as [H|H]; inversion H; subst;
-            unfold ph_crit; auto.
-        * destruct (K4 w eq_refl) as [K|K]; rewrite K in H; destruct H as [H|H]; inversion H; subst;
-            unfold ph_crit; auto.
-        * destruct (K7 eq_refl) as [K|K]; rewrite K in H; destruct H as [H|H]; discriminate.
-      + intros H. exfalso. destruct (ph (Rn s n)) as [| |w|w| |] eqn:E; try contradiction.
-        * destruct (K6 eq_refl) as [K|K]; rewrite K in H; discriminate.
-        * destruct (K5 w eq_refl) as [K|[K|K]]; rewrite K in H; discriminate.
-        * destruct (K4 w eq_refl) as [K|K]; rewrite K in H; discriminate.
-        * destruct (K7 eq_refl) as [K|K]; rewrite K in H; discriminate.
+      + intros [H|[H|[H|[H|H]]]].
+        * contradiction.
+        * rewrite (P2 _ H). unfold ph_nocrit. auto.
+        * destruct (P3 _ H) as [E|E]; rewrite E; unfold ph_nocrit; auto.
+        * rewrite (P2 _ H). unfold ph_nocrit. auto 6.
+        * destruct (P3 _ H) as [E|E]; rewrite E; unfold ph_nocrit; auto 6.
+      + intros [H|H].
+        * rewrite (P2 _ H). left. reflexivity.
+        * destruct (P3 _ H) as [E|E]; rewrite E; [left|right]; reflexivity.
+      + intros [H|H].
+        * rewrite (P2 _ H). left. reflexivity.
+        * destruct (P3 _ H) as [E|E]; rewrite E; [left|right]; reflexivity.
+      + intros H. contradiction.
+      + intros [H|[[w H]|[w H]]].
+        * contradiction.
+        * pose proof (P2 _ H) as E. split; [right; left; exists w; exact E|].
+          apply K11. rewrite E. discriminate.
+        * destruct (P3 _ H) as [E|E]; (split; [|apply K11; rewrite E; discriminate]).
+          -- right. left. exists w. exact E.
+          -- right. right. exists w. exact E.
     - apply (inv5_main n d); auto.
   Qed.
 End Step.
